@@ -44,7 +44,8 @@ Inductive op :=
 | GatherBatch (k : nat) (sched : list (list nat))
 | Close (g : list nat)     (* g: tasks whose coroutine completes before the cancellation takes effect *)
 | Dump
-| SetMax (m : Z).
+| SetMax (m : Z)
+| Tick (g : list nat).      (* the event loop runs outside gather/close (a caller driving evaluator.loop): tasks of g finish *)
 
 Inductive out :=
 | OSubmitted (ids : list nat)
@@ -155,6 +156,7 @@ Definition step (fix_ : bool) (s : ev) (o : op) : ev * out :=
   | Close g => close fix_ (if loop_open s then complete_group g s else s)
   | Dump => dump s
   | SetMax m => (set_max m s, ONone)
+  | Tick g => (complete_group g s, ONone)
   end.
 
 Definition run (fix_ : bool) (ops : list op) : ev := fold_left (fun s o => fst (step fix_ s o)) ops init.
